@@ -109,6 +109,11 @@ class TD:
         return sorted(ps)
 
 
+_KEEP_ALIVE = []
+# an unrelated timeline: odd BPM, a warp over beats 0-8, a stop and a delay inside it
+BYSTANDER = TD([(0, "333"), (2 * Q, "77.7")], stops=[(Q, "1.5")], delays=[(3 * Q, "0.75")], warps=[(0, "8"), (20 * Q, "2")], offset="0.321")
+
+
 def from_model(tdm, offset="0"):
     """MC_Timing's td (smooth) -> TD"""
     inv = {u: b for b, u in SMOOTH_BPM.items()}
@@ -228,6 +233,15 @@ def record(td, rng, kinds, rid, notes_text=None, max_probes=60):
     rec = {"id": rid, "td": td.spec(), "smooth": sm, "queries": [], "st": "ok"}
     try:
         from simfile.timing.engine import TimingEngine
+        if rng.random() < 0.25:
+            # history: ANOTHER TimingData parsed from the same texts is edited in place first (doubled first BPM,
+            # extra stop / delay / warp at beat 0): lists must never be shared between TimingData objects
+            from simfile.timing import Beat, BeatValue
+            _, spoiled = td.engine(build=False)
+            spoiled.bpms[0] = BeatValue(spoiled.bpms[0].beat, spoiled.bpms[0].value * 2)
+            spoiled.bpms.append(BeatValue(Beat(1, 48), Decimal("777")))
+            for lst in (spoiled.stops, spoiled.delays, spoiled.warps):
+                lst.insert(0, BeatValue(Beat(0), Decimal("7")))
         _, tdata = td.engine(build=False)
         eng = None
         if rng.random() < 0.3:
@@ -241,6 +255,13 @@ def record(td, rng, kinds, rid, notes_text=None, max_probes=60):
                 first_engine.time_at(beat_of(rng.choice(td.event_positions())))
                 lst.append(last)
         eng = TimingEngine(tdata)
+        if rng.random() < 0.3:
+            # history: a second, unrelated engine is built AFTER this one and stays alive while this one is queried
+            bystander, _ = BYSTANDER.engine()
+            bystander.hittable(beat_of(Q))
+            bystander.time_at(beat_of(12 * Q))
+            _KEEP_ALIVE.append(bystander)
+            del _KEEP_ALIVE[:-3]
     except Exception as e:  # noqa
         rec["st"] = "engine-raised:" + type(e).__name__
         return rec
